@@ -206,7 +206,9 @@ def run(ctx):
     for pid in ran[:2]:
         first = open(runs[pid]["trace"]).readline()[:300]
         samples.append({"program": pid, "events": runs[pid]["n"], "first_event": first})
-    cov = dict(states=rm.distinct + stats["states"], transitions=rm.generated + stats["steps"], traces_validated_against_impl=sum(len(c) for c in chunks),
+    from props import gx_part
+    gx_cov = gx_part.run_part(ctx, "C14")       # widened program universe: reference-count traces of generated programs
+    cov = dict(generator_exploration=gx_cov, states=rm.distinct + stats["states"], transitions=rm.generated + stats["steps"], traces_validated_against_impl=sum(len(c) for c in chunks),
                samples=samples or [{"note": "none"}], evaluations=stats["states"], distinct_nontrivial=len(ran),
                trace=dict(stats), alphabet_model=dict(distinct=rm.distinct, generated=rm.generated, vacuity_bug_detected=rb.violated),
                rule="alphabet model: every configuration reachable in <= MaxSteps instructions (stack <= 5, <= 3 live objects); traces: churn, alias, family and random programs, full projected heap after every instruction")
